@@ -79,7 +79,7 @@ def build():
         rt, st, ref = T(r), T(self), u.lift(reference, TStr)
         support = z3.Or(rt == INT0, z3.Implies(d_supp.decl(rt, A0), d_supp.decl(st, z3.SetAdd(A0, ref))))
         value = d_ev.decl(rt, ref, z3.BoolVal(False)) == d_ev.decl(st, ref, z3.BoolVal(True))
-        return z3.And(support, value)
+        return z3.And(support, value, z3.Implies(st == INT0, rt == INT0))  # (an exhausted expression stays exhausted)
 
     k_exhaust = ctx.contract(EX.exhaust_tensor, params=[("self", E), ("reference", TStr)], result_ty=E, post=post_exhaust, name="exhaust_tensor")
 
